@@ -57,6 +57,8 @@ func Probes(prop string) []*Case {
 	add("KF-18", []string{"C11", "C01"}, &Case{Src: newSrc("probe18", kw, Iface{Name: "P", Methods: []Method{
 		meth("M1", ps(par("v", Named(0, "T"))), nil), meth("M2", ps(par("v", Named(1, "T"))), nil)}, Aliases: []map[int]string{{}, {}}}),
 		Cfg: Cfg{Dest: "implicit", Fmt: "noop", Args: []string{"P"}}})
+	add("KF-20", []string{"C09", "C01", "C10", "C11"}, &Case{Src: newSrc("probe20", one, Iface{Name: "P", OneFile: true, TParams: []TypeParam{{Name: "K", Constraint: "depunion:0"}, {Name: "V", Constraint: "any"}},
+		Methods: []Method{meth("Get", ps(par("k", TParam("K"))), ps(par("", TParam("V")), par("", Basic("bool"))))}}), Cfg: Cfg{Dest: "other", Args: []string{"P"}}})
 	add("KF-16", []string{"C01", "C11"}, &Case{NoPredict: true, Src: &SrcPkg{Name: "probe16", Pkgs: []Pkg{}, Raw: map[string]string{"p.go": "package probe16\n\nimport \"unsafe\"\n\ntype P interface {\n\tPtr(p unsafe.Pointer) uintptr\n}\n"}},
 		Cfg: Cfg{Dest: "implicit", Args: []string{"P"}}})
 	if prop == "C15" {
